@@ -4,8 +4,9 @@ Proved (lean/Paroxy/Props/C18.lean): the documented decision rules on the *plans
 the option record and file-system facts.  Tie = correspondence, in a scratch tree:
 
  * `paths`      — the pathlib model (parse / parent / name / str / resolve) against `pathlib`, bounded-exhaustive;
- * `names`      — `prefixOf` against the regex literal re-read from cli_recommend.py, the structural default skip
-                  (R3) against `regex.fullmatch` of the default pattern, bounded-exhaustive;
+ * `names`      — `prefixOf` against the prefix `recommend` really applies (observed through the default report name),
+                  the structural default skip (R3) against `regex.fullmatch` of the model's default pattern,
+                  bounded-exhaustive; `default-patterns` — what list_programs / collect list without options;
  * `listing`    — `list_programs` on generated directories against `selectPrograms` fed with the real glob
                   result and the real `fullmatch` answers (R1 oracles);
  * `collect` / `recommend` / `tag` — the real entry point `paroxython.cli.main()` (sys.argv patched, in-process)
@@ -172,46 +173,103 @@ def stream_paths(ctx, drv):
                 "model": drv.call("c18.model.paths", paths=["a/./b//../c.py"], cwd=cwd)["r"][0][:2]})
 
 
-def stream_names(ctx, drv, lp_mod):
+EMPTY_DB = '{"programs": {}, "labels": {}, "taxa": {}, "importations": {}, "exportations": {}}\n'
+
+
+def observed_prefix(cli, box, name):
+    """The prefix rule as `paroxython recommend` APPLIES it (no reading of its source): with a database called
+    `name`, the empty pipeline and no `-o`, the report is written as PREFIX + "recommendations.md"."""
+    for p in box.iterdir():
+        p.unlink()
+    (box / name).write_text(EMPTY_DB)
+    impl = run_cli(cli, ["recommend", "--pipe=[]", "./" + name], box)
+    written = sorted(p.name for p in box.iterdir() if p.name != name)
+    if impl["exit"] not in (None, 0) or impl["exc"] or len(written) != 1 or not written[0].endswith("recommendations.md"):
+        return None, {"exit": str(impl["exit"]), "exc": impl["exc"], "written": written}
+    return written[0][:-len("recommendations.md")], None
+
+
+def stream_names(ctx, drv, cli, root):
     import regex
 
     spec = drv.call("c18.spec.names", names=[])
-    # the regex literal of the prefix rule, re-read from the source
-    src = (core.REPO / "paroxython" / "cli_recommend.py").read_text()
-    m = re.search(r'regex\.fullmatch\(r"([^"]+)",\s*db_path\.name\)', src)
-    if not m:
-        ctx.broken.append("corr:names:prefix-regex-not-found")
-        return
-    prefix_re = regex.compile(m.group(1))
-    # the default patterns of list_programs, re-read from the source
-    lsrc = (core.REPO / "paroxython" / "list_programs.py").read_text()
-    mg = re.search(r'glob_pattern = glob_pattern or "([^"]+)"', lsrc)
-    ms = re.search(r'skip_pattern = skip_pattern or r"([^"]+)"', lsrc)
-    if not mg or not ms or mg.group(1) != spec["defaultGlob"] or ms.group(1) != spec["defaultSkip"]:
-        ctx.broken.append("corr:names:default-patterns")
-        ctx.notes.append(f"default patterns: source {mg and mg.group(1)!r} {ms and ms.group(1)!r}, model {spec['defaultGlob']!r} {spec['defaultSkip']!r}")
-        return
-    skip_re = regex.compile(spec["defaultSkip"])
     quick = ctx.tier == "quick"
-    for stream, alphabet, maxlen in (
-        ("names:prefix", ["db.json", "_", "-", "a", ".", "db", "json", "\n"], 4 if quick else 6),
-        ("names:default-skip", ["__init__", "setup", "test", "tests", "-", "_", ".py", "a", ".", "s", "\n"], 4 if quick else 5),
-    ):
-        names = ["".join(t) for n in range(maxlen + 1) for t in itertools.product(alphabet, repeat=n)]
-        r = drv.call("c18.spec.names", names=names)
-        for i, n in enumerate(names):
-            if stream == "names:prefix":
-                mm = prefix_re.fullmatch(n)
-                impl, model = (mm[1] if mm else ""), r["prefix"][i]
+    # (a) the prefix rule, behaviourally: every file name over the token alphabet up to the stated length
+    alphabet, maxlen = ["db.json", "_", "-", "a", ".", "db", "json", "x_"], (3 if quick else 4)
+    names = ["".join(t) for n in range(1, maxlen + 1) for t in itertools.product(alphabet, repeat=n)]
+    names = sorted({n for n in names if n not in (".", "..") and not n.endswith("recommendations.md")})
+    box = root / "prefix-box"
+    box.mkdir()
+    model = drv.call("c18.spec.names", names=names)["prefix"]
+    for n, m in zip(names, model):
+        impl, err = observed_prefix(cli, box, n)
+        ctx.count("names:prefix", n, nontrivial=bool(impl))
+        if impl != m:
+            ctx.cov["disagreements_checked"] += 1
+            replay = {"kind": "prefix", "db_name": n, "impl": impl if err is None else err, "model": m}
+            if err is None:
+                ctx.violations.append({"what": "paroxython recommend: the default report name does not follow the documented PREFIX rule",
+                                       "replay": replay, "signature": None})
             else:
-                impl, model = bool(skip_re.fullmatch(n)), r["defaultSkips"][i]
-            ctx.count(stream, n, nontrivial=bool(impl))
-            if impl != model:
-                ctx.cov["disagreements_checked"] += 1
-                ctx.broken.append(f"corr:{stream}")
-                ctx.notes.append(f"{stream}: {n!r}: regex {impl!r} model {model!r}")
-                return
-        ctx.cov.setdefault("exhaustive_streams", {})[stream] = {"alphabet": alphabet, "all_sequences_up_to_length": maxlen}
+                ctx.broken.append("corr:names:prefix")
+                ctx.notes.append(json.dumps(replay, ensure_ascii=False))
+            shutil.rmtree(box)
+            return
+    shutil.rmtree(box)
+    ctx.cov.setdefault("exhaustive_streams", {})["names:prefix"] = {"alphabet": alphabet, "all_sequences_up_to_length": maxlen,
+                                                                    "observed_through": "default report name of `recommend --pipe=[] NAME`"}
+    # (b) R3: the structural default skip of the model = the regex engine on the MODEL's default pattern
+    #     (what list_programs / collect really do without options is pinned down behaviourally in `listing`)
+    skip_re = regex.compile(spec["defaultSkip"])
+    alphabet, maxlen = ["__init__", "setup", "test", "tests", "-", "_", ".py", "a", ".", "s", "\n"], (4 if quick else 5)
+    names = ["".join(t) for n in range(maxlen + 1) for t in itertools.product(alphabet, repeat=n)]
+    r = drv.call("c18.spec.names", names=names)
+    for i, n in enumerate(names):
+        impl, model = bool(skip_re.fullmatch(n)), r["defaultSkips"][i]
+        ctx.count("names:default-skip", n, nontrivial=bool(impl))
+        if impl != model:
+            ctx.cov["disagreements_checked"] += 1
+            ctx.broken.append("corr:names:default-skip")
+            ctx.notes.append(f"names:default-skip: {n!r}: regex {impl!r} model {model!r}")
+            return
+    ctx.cov.setdefault("exhaustive_streams", {})["names:default-skip"] = {"alphabet": alphabet, "all_sequences_up_to_length": maxlen}
+
+
+DEFAULTS_DIR = ["__init__.py", "setup.py", "x_test.py", "y_tests.py", "z-test.py", "w-tests.py", "test_a.py", "b.py", "sub/c.py",
+                "sub/__init__.py", "d.txt", "e.pyc", ".hidden", ".dot.py", "sub/deep/f_test.py", "sub/deep/g.py", "setup.py.py",
+                "tests.py", "a-b.py", "a/b.py"]
+
+
+def stream_default_patterns(ctx, drv, cli, lp_mod, root):
+    """The default glob / skip patterns pinned down by what they DO: `list_programs(directory)` and `collect DIRECTORY`
+    without --glob / --skip on a fixed directory, against the model's listing under ITS default patterns."""
+    spec = drv.call("c18.spec.names", names=[])
+    d = root / "defaults" / "progs"
+    for f in DEFAULTS_DIR:
+        (d / f).parent.mkdir(parents=True, exist_ok=True)
+        (d / f).write_text("x = 1\n")
+    globbed = list(d.glob(spec["defaultGlob"]))
+    rel = [str(p.relative_to(d)) for p in globbed]
+    sk = drv.call("c18.spec.names", names=[p.name for p in globbed])["defaultSkips"]
+    model = drv.call("c18.model.select", paths=rel, skips=sk)["r"]
+    with quiet():
+        impl_lib = [p.path for p in lp_mod.list_programs(d, cleanup_strategy="none")]
+    res = run_cli(cli, ["collect", "--no_timestamp", "-o", "out.json", "progs"], d.parent)
+    out = d.parent / "out.json"
+    impl_cli = list(json.loads(out.read_text())["programs"]) if out.exists() else {"exit": str(res["exit"]), "exc": res["exc"]}
+    ctx.count("default-patterns", "list_programs", nontrivial=True)
+    ctx.count("default-patterns", "collect", nontrivial=True)
+    for what, impl in (("list_programs(directory)", impl_lib), ("paroxython collect DIRECTORY", impl_cli)):
+        if impl != model:
+            ctx.cov["disagreements_checked"] += 1
+            ctx.violations.append({
+                "what": f"{what} without glob / skip options does not list the files the documented default patterns select",
+                "replay": {"kind": "default-patterns", "files": DEFAULTS_DIR, "impl": impl, "model": model,
+                           "spec": {"glob": spec["defaultGlob"], "skip": spec["defaultSkip"]}},
+                "signature": None})
+            break
+    ctx.sample({"stream": "default-patterns", "files": DEFAULTS_DIR, "impl": impl_lib, "model": model}, limit=14)
+    shutil.rmtree(root / "defaults")
 
 
 def stream_listing(ctx, drv, lp_mod, root):
@@ -806,7 +864,8 @@ def run(ctx):
     drv = core.Driver()
     try:
         stream_paths(ctx, drv)
-        stream_names(ctx, drv, lp)
+        stream_names(ctx, drv, cli, root)
+        stream_default_patterns(ctx, drv, cli, lp, root)
         stream_listing(ctx, drv, lp, root)
         ws = Workspace(root, "ws", mdb)
         stream_tag(ctx, drv, cli, ws, 30 if quick else 120)
